@@ -70,10 +70,21 @@ if r5:
     out.append("  some check.  Two sub-agents of this round also reported defects of the *unmodified* tree, both confirmed and repaired")
     out.append("  (3e81fe2, 0648151; §5b) — eight older seeds and nine neutral patches that edit the repaired functions were ported to the")
     out.append("  new tree by hand and re-validated.")
+r6 = [r for r in rows if r[2] == 6]
+if r6:
+    n6 = len(r6)
+    f6t = sum(1 for r in r6 if r[7])
+    f6a = sum(1 for r in r6 if r[8])
+    out.append("* **Round 6** (%d changes for the nine claimed properties not revisited in rounds 4–5: C18, C19, C21–C24, C27, C28, C30)." % n6)
+    out.append("  First sight with the rules frozen at commit f245dee: **%d/%d (%d%%) by the target property's check, %d/%d (%d%%) by some" % (f6t, n6, round(100.0 * f6t / n6), f6a, n6, round(100.0 * f6a / n6)))
+    out.append("  check** — the lowest first-sight rate of all rounds: these properties (side-effect report, component round trip,")
+    out.append("  custom sections, block modes) had the thinnest rule sets.  After the response (§3 \"Rules added in round 6\"): %d/%d by" % (sum(1 for r in r6 if r[4]), n6))
+    out.append("  the target check, %d/%d by some check.  A note in one agent's report led to the third defect of the unmodified tree" % (sum(1 for r in r6 if r[5]), n6))
+    out.append("  found this way (661c1df; §5b).")
 out.append("")
 out.append("The thorough tier re-applies, for each property, every change listed here as caught by it and requires the check to fire.")
 out.append("")
-out.append("| id | what the change does | target check fires | fires under | deciding rules | first sight (rounds 2–5) |")
+out.append("| id | what the change does | target check fires | fires under | deciding rules | first sight (rounds 2–6) |")
 out.append("|---|---|---|---|---|---|")
 for name, prop, rnd, summ, tgt, fires, rules, fst, fsa in rows:
     out.append("| %s | %s | %s | %s | %s | %s |" % (name, summ, "yes" if tgt else "no", ",".join(fires) or "—", ", ".join(rules)[:110] or "—",
